@@ -508,7 +508,9 @@ class HedSchema(HedSchemaBase):
         clean_tag = str(tag)
         namespace = schema_namespace
         clean_tag = clean_tag[len(namespace):]
-        working_tag = clean_tag.casefold()
+        # Positions (slashes, offsets, the remainder) are taken on the text as written: case folding can change its
+        # length ('ß' -> 'ss').  The tag section folds the keys it is asked for.
+        working_tag = clean_tag
 
         # Most tags are in the schema directly, so test that first
         found_entry = self._get_tag_entry(working_tag)
